@@ -122,7 +122,13 @@ def strategy_(draw):
             c["rhs"] = [E.C(draw(gen.small().filter(lambda v: v != lead)))]
         cons.append(c)
     sp["constraints"] = cons
-    return {"spec": sp, "unsupported": unsupported, "rng": draw(st.integers(0, 2**31 - 1))}
+    rng_ = draw(st.integers(0, 2**31 - 1))
+    if len(xs) == 2 and unsupported is None and draw(st.integers(0, 3)) == 0:
+        # two inf_inert operands over two different controls in one relation: each keeps its own operand
+        k1, k2 = draw(st.sampled_from([0.5, 1.0, -0.75])), draw(st.sampled_from([0.25, -0.5, 1.5]))
+        sp["controls"].append({"name": "u1", "rows": 1, "cols": 1})      # a second control (unnamed controls all print as 'u'), used only here
+        cons[0]["lhs"] = [["+", ["*", ["*", E.C(k1), ["inert", us[0]]], xs[1]], ["*", ["*", E.C(k2), ["inert", E.S("u1")]], xs[0]]]]
+    return {"spec": sp, "unsupported": unsupported, "rng": rng_}
 
 
 def strategy(tier):
